@@ -468,6 +468,8 @@ pub struct Rendered {
     pub text: String,
     /// 1-based first line of each entry
     pub entry_line: Vec<usize>,
+    /// 1-based last line of each entry (the line before the blank line that ends it)
+    pub entry_last_line: Vec<usize>,
     /// byte offset of the start of each posting line, per entry
     pub posting_off: Vec<Vec<usize>>,
     /// line, account-name range and `= X` range of each posting, per entry
@@ -481,6 +483,7 @@ pub fn render(entries: &[Entry]) -> Rendered {
 pub fn render_deco(entries: &[Entry], deco: &Deco) -> Rendered {
     let mut text = String::new();
     let mut entry_line = Vec::new();
+    let mut entry_last_line = Vec::new();
     let mut posting_off = Vec::new();
     let mut posting_span = Vec::new();
     let mut line = 1usize;
@@ -540,10 +543,129 @@ pub fn render_deco(entries: &[Entry], deco: &Deco) -> Rendered {
         }
         posting_off.push(offs);
         posting_span.push(spans);
+        entry_last_line.push(line - 1);
         text.push('\n');
         line += 1;
     }
-    Rendered { text, entry_line, posting_off, posting_span }
+    Rendered { text, entry_line, entry_last_line, posting_off, posting_span }
+}
+
+// ---------- text around the postings (C01-C03: the diagnostic must still name the entry and the posting) ----------
+
+pub const PAYEES: [&str; 12] = [
+    "スーパーマーケットで食料品と日用品を購入",
+    "Café Zürich – déjeuner d'équipe",
+    "Оплата аренды за март",
+    "😀 lunch 🍣🍣",
+    "ｆｕｌｌｗｉｄｔｈ　ｓｈｏｐ",
+    "naïve façade coöp",
+    "e\u{301}cole de\u{301}ja\u{300}",
+    "期首残高",
+    "plain ascii payee",
+    "Ångström Ærø Łódź",
+    "한국어 가게",
+    "مطعم",
+];
+pub const NOTES: [&str; 10] = [
+    "領収書あり",
+    "reçu n° 42 — payé",
+    "чек прилагается",
+    ":タグ:経費:",
+    "メモ: 割り勘",
+    "ascii note",
+    "🧾🧾🧾",
+    "ｗｉｄｅ",
+    "ÄÖÜäöüß",
+    "備考 備考 備考 備考 備考 備考",
+];
+pub const CODES: [&str; 4] = ["#12", "領収-7", "n°3", "Ж-9"];
+
+/// Rename a random subset of the accounts to their non-ASCII twins (the same twin everywhere
+/// in the ledger) and put text the book-keeping never reads around the postings.
+pub fn decorate(r: &mut Rng, entries: &mut [Entry]) -> Deco {
+    let mut d = Deco::default();
+    let style = r.below(4); // 0: plain rendering, 1: names only, 2: text only, 3: both
+    if style == 0 {
+        return d;
+    }
+    if style == 1 || style == 3 {
+        let twin: Vec<bool> = (0..ACCOUNTS.len()).map(|_| r.chance(1, 2)).collect();
+        for e in entries.iter_mut() {
+            if let Entry::Txn(t) = e {
+                for p in t.posts.iter_mut() {
+                    if p.account < ACCOUNTS.len() && twin[p.account] {
+                        p.account += ACCOUNTS.len();
+                    }
+                }
+            }
+        }
+    }
+    if style >= 2 {
+        for (k, e) in entries.iter().enumerate() {
+            match e {
+                Entry::Txn(t) => {
+                    let mut td = TxnDeco::default();
+                    if r.chance(2, 3) {
+                        td.payee = Some(r.pick(&PAYEES).to_string());
+                    }
+                    if r.chance(1, 5) {
+                        td.code = Some(r.pick(&CODES).to_string());
+                    }
+                    for _ in 0..r.below(3) {
+                        td.notes.push(r.pick(&NOTES).to_string());
+                    }
+                    for i in 0..t.posts.len() {
+                        let mut pd = PostDeco::default();
+                        if r.chance(1, 4) {
+                            pd.tail = Some(r.pick(&NOTES).to_string());
+                        }
+                        if r.chance(1, 5) {
+                            for _ in 0..1 + r.below(2) {
+                                pd.after.push(r.pick(&NOTES).to_string());
+                            }
+                        }
+                        if pd != PostDeco::default() {
+                            td.posts.insert(i, pd);
+                        }
+                    }
+                    if td != TxnDeco::default() {
+                        d.txns.insert(k, td);
+                    }
+                }
+                Entry::Comment => {
+                    if r.chance(2, 3) {
+                        d.comments.insert(k, format!("{} {}", r.pick(&NOTES), r.pick(&PAYEES)));
+                    }
+                }
+                Entry::Format(..) => {}
+            }
+        }
+    }
+    d
+}
+
+/// corpus / replay files: the entry tree under "entries", the text around it under "deco"
+pub fn corpus_decos(dir: &std::path::Path, extra: &[String]) -> Vec<Deco> {
+    let mut files: Vec<std::path::PathBuf> = Vec::new();
+    if let Some(i) = extra.iter().position(|a| a == "--replay") {
+        if let Some(p) = extra.get(i + 1) {
+            files.push(std::path::PathBuf::from(p));
+        }
+    } else if let Ok(rd) = std::fs::read_dir(dir) {
+        files = rd.filter_map(|e| e.ok()).map(|e| e.path()).collect();
+        files.sort();
+    }
+    let mut out = Vec::new();
+    for p in files {
+        if let Ok(text) = std::fs::read_to_string(&p) {
+            if let Ok(v) = serde_json::from_str::<serde_json::Value>(&text) {
+                if v.get("entries").and_then(|e| serde_json::from_value::<Vec<Entry>>(e.clone()).ok()).is_some() {
+                    out.push(v.get("deco").and_then(|d| serde_json::from_value::<Deco>(d.clone()).ok()).unwrap_or_default());
+                }
+            }
+        }
+    }
+    out
 }
 
 // ---------- Coq ----------
@@ -1491,22 +1613,60 @@ pub fn obs_kind(o: &Obs) -> String {
     }
 }
 
-/// run one ledger through the implementation and record it as a case `C entries obs`
+/// run one ledger through the implementation and record it as a case `CG entries obs diag`:
+/// the ledger is written with the text of `deco` around the postings, and when it is rejected
+/// the error is rendered as the user sees it and read back (diag::read_error_diag)
 pub fn emit_ledger_case(
     sh: &mut crate::coq::Shards,
     st: &mut crate::coq::Stats,
     prop: &str,
     entries: &[Entry],
+    deco: &Deco,
     nontrivial: &dyn Fn(&Shape, &Obs) -> bool,
     tag: &str,
 ) -> Obs {
-    let r = render(entries);
+    use crate::diag::{self, GDiag};
+    let r = render_deco(entries, deco);
     let names = Names::default_names();
-    let o = run_process(&[("/main.ledger".to_string(), r.text.clone())], &names, Some(&r));
+    let files = [("/main.ledger".to_string(), r.text.clone())];
+    let o = run_process(&files, &names, Some(&r));
+    let mut rendered: Option<String> = None;
+    let d = match &o {
+        Obs::Err { entry, err, .. } if *entry != 9999 => {
+            st.count("diag:errors_rendered");
+            st.count(&format!("diag:rendered:{}", err_kind(err)));
+            let lo = r.entry_line.get(*entry).map(|l| r.text.split('\n').take(l - 1).map(|x| x.len() + 1).sum::<usize>()).unwrap_or(0);
+            let hi = r.entry_last_line.get(*entry).map(|l| r.text.split('\n').take(*l).map(|x| x.len() + 1).sum::<usize>()).unwrap_or(lo);
+            if !r.text[lo..hi.min(r.text.len())].is_ascii() {
+                st.count("diag:non_ascii_text_in_the_failing_entry");
+            }
+            match diag::rendered_error(&files) {
+                Err(m) => GDiag::Panic(m),
+                Ok(None) => GDiag::Unreadable("no error on the second run".into()),
+                Ok(Some(text)) => {
+                    let d = diag::read_error_diag(&text, &r);
+                    rendered = Some(text);
+                    d
+                }
+            }
+        }
+        _ => GDiag::NotApplicable,
+    };
+    st.count(match &d {
+        GDiag::NotApplicable => "diag:not_applicable",
+        GDiag::Panic(_) => "diag:render_panic",
+        GDiag::Unreadable(_) => "diag:unreadable",
+        GDiag::Wide => "diag:excerpt_cut_not_read",
+        GDiag::Seen(_) => "diag:read_back",
+    });
     let s = shape(entries);
     st.eval(&r.text, nontrivial(&s, &o));
     st.count(&obs_kind(&o));
     st.count(&format!("gen:{}", tag));
+    st.count(if deco.is_plain() { "text:plain" } else { "text:decorated" });
+    if entries.iter().any(|e| matches!(e, Entry::Txn(t) if t.posts.iter().any(|p| p.account >= ACCOUNTS.len()))) {
+        st.count("text:non_ascii_account_names");
+    }
     st.add("shape:txns", s.txns as u64);
     st.add("shape:postings", s.postings as u64);
     st.add("shape:omitted", s.omitted as u64);
@@ -1519,13 +1679,36 @@ pub fn emit_ledger_case(
     st.add("shape:paren_expr", s.exprs as u64);
     st.add("shape:format_decl", s.formats as u64);
     shape_text_stats(st, &s);
-    let rep = case_json(prop, entries, &r.text, &o);
+    let mut rep = case_json(prop, entries, &r.text, &o);
+    if !deco.is_plain() {
+        rep["deco"] = serde_json::to_value(deco).unwrap();
+    }
+    if !matches!(d, GDiag::NotApplicable) {
+        rep["impl"]["rendered"] = json!(rendered);
+        rep["impl"]["rendered_read_as"] = diag::gdiag_json(&d);
+    }
     if st.samples.len() < 3 || (st.samples.len() < 6 && matches!(o, Obs::Err { .. })) {
         st.sample(rep.clone(), 6);
     }
-    let term = format!("C {} {}", coq::list(entries.iter().map(entry_term)), obs_term(&o));
+    let term = format!("CG {} {} {}", coq::list(entries.iter().map(entry_term)), obs_term(&o), diag::gdiag_term(&d));
     sh.push(term, vec![rep]);
     o
+}
+
+pub fn err_kind(e: &ErrObs) -> &'static str {
+    match e {
+        ErrObs::Eval(_) => "EvalFailure",
+        ErrObs::BalanceFailure => "BalanceFailure",
+        ErrObs::Undeducible(..) => "UndeduciblePostingAmount",
+        ErrObs::Unbalanced(_) => "UnbalancedPostings",
+        ErrObs::Assertion { .. } => "BalanceAssertionFailure",
+        ErrObs::ZeroAmountWithExchange => "ZeroAmountWithExchange",
+        ErrObs::ZeroExchangeRate => "ZeroExchangeRate",
+        ErrObs::ExchangeWithAmountCommodity => "ExchangeWithAmountCommodity",
+        ErrObs::InvalidAccount(_) => "InvalidAccount",
+        ErrObs::InvalidCommodity(_) => "InvalidCommodity",
+        ErrObs::Other(_) => "other",
+    }
 }
 
 /// corpus / replay files carry the entry tree as JSON under "entries"
